@@ -106,16 +106,18 @@ def impl_render(d):
     return ['?', repr(t)]
 
 
-def impl_group(wmo_sn, local_sn):
+def impl_group(wmo_sn, local_sn, root=None):
     from pybufrkit.tables import TableGroupCacheManager, TableGroupKey
-    key = TableGroupKey(tables_io.tables_root(), tuple(wmo_sn), tuple(local_sn) if local_sn else None)
+    key = TableGroupKey(root or tables_io.tables_root(), tuple(wmo_sn), tuple(local_sn) if local_sn else None)
     return TableGroupCacheManager.get_table_group_by_key(key)
 
 
-def impl_group_via_api(wmo_sn, local_sn):
+def impl_group_via_api(wmo_sn, local_sn, root=None):
     """the documented entry point; the key it resolves to must be the requested one"""
     from pybufrkit.tables import TableGroupCacheManager
     kw = dict(master_table_version=int(wmo_sn[2]))
+    if root:
+        kw['tables_root_dir'] = root
     if local_sn:
         c, s = local_sn[1].split('_')
         kw.update(originating_centre=int(c), originating_subcentre=int(s), local_table_version=int(local_sn[2]))
@@ -202,14 +204,23 @@ def ownership_ok(tree):
 
 # ---------------------------------------------------------------------------------------------
 # stream 1: every Table D row of a table group
-def check_group(ctx, wmo_sn, local_sn):
+def check_group(ctx, wmo_sn, local_sn, root=None, tag=''):
     from pybufrkit.descriptors import flat_member_ids
-    label = '/'.join(wmo_sn) + ('+' + '/'.join(local_sn) if local_sn else '')
-    b, d = tables_io.read_group(wmo_sn, local_sn)
-    g = impl_group_via_api(wmo_sn, local_sn)
+    label = tag + '/'.join(wmo_sn) + ('+' + '/'.join(local_sn) if local_sn else '')
+    b, d = tables_io.read_group(wmo_sn, local_sn, root)
+    try:
+        g = impl_group_via_api(wmo_sn, local_sn, root)
+    except Exception as e:
+        load_failure(ctx, label, wmo_sn, local_sn, e)
+        return
     want_key = (tuple(wmo_sn), tuple(local_sn) if local_sn else None)
     if (g.key.wmo_tables_sn, g.key.local_tables_sn) != want_key:
-        raise core.MachineryError('table group %s resolved to %r' % (label, g.key))
+        ctx.case({'g': label, 'select': True})
+        ctx.violation('get_table_group for the existing tables %s selected %r / %r' % (label, g.key.wmo_tables_sn, g.key.local_tables_sn),
+                      {'group': label, 'wmo_sn': wmo_sn, 'local_sn': local_sn, 'id': 0,
+                       'selected': [g.key.wmo_tables_sn, g.key.local_tables_sn]},
+                      signature={'kind': 'normalize', 'why': 'existing tables not selected'})
+        return
     out = ctx.driver.batch([tables_io.tables_request(b, d), {'op': 'tables-wf'}, {'op': 'expand-all'}])
     wf, rows = out[1], out[2]['rows']
     if not wf['keyed']:
@@ -253,7 +264,10 @@ def check_group(ctx, wmo_sn, local_sn):
                     omsg = 'leaf %06d carries %r, TableB.json says %r' % (a[0], a, exp)
                     break
         mobs = (['ok', r[2], r[3], r[5], r[6]] if r[1] == 'ok' else ['err:' + r[1]])
-        if omsg:
+        if omsg and omsg.split(' ')[0] in ctx.seen_row_failures:
+            ctx.count('rows_failing_again')
+        elif omsg:
+            ctx.seen_row_failures.add(omsg.split(' ')[0])
             det = ctx.driver.batch([tables_io.tables_request(b, d), {'op': 'expand-row', 'id': id_}])[1]
             ctx.violation('row %06d of %s: %s (impl %s..., direct %s...)' % (id_, label, omsg, (flat or [])[:12], want[:12]),
                           {'group': label, 'wmo_sn': wmo_sn, 'local_sn': local_sn, 'id': id_, 'row': row, 'impl_flat': flat,
@@ -271,6 +285,13 @@ def check_group(ctx, wmo_sn, local_sn):
     # forward / backward references inside one file (what the two-pass load is for)
     fwd = sum(1 for k, v in d.items() for m in v[1] if int(m) >= 300000 and int(m) in d and '%06d' % int(m) > '%06d' % k)
     ctx.count('rows_forward_references', fwd)
+
+
+def load_failure(ctx, label, wmo_sn, local_sn, e):
+    ctx.case({'g': label, 'load': True})
+    ctx.violation('table group %s cannot be loaded by the implementation: %s %s' % (label, type(e).__name__, str(e)[:200]),
+                  {'group': label, 'wmo_sn': wmo_sn, 'local_sn': local_sn, 'load_error': core.err_tag(e), 'id': 0},
+                  signature={'kind': 'load', 'error': type(e).__name__})
 
 
 def groups_for(ctx):
@@ -431,13 +452,17 @@ def shrink_list(ctx, treq, group, ids, wellformed, d, pred):
     return cur
 
 
-def check_lists(ctx, wmo_sn, local_sn, n_good, n_bad):
-    b, d = tables_io.read_group(wmo_sn, local_sn)
+def check_lists(ctx, wmo_sn, local_sn, n_good, n_bad, root=None, tag=''):
+    b, d = tables_io.read_group(wmo_sn, local_sn, root)
     treq = tables_io.tables_request(b, d)
-    group = impl_group(wmo_sn, local_sn)
+    label = tag + '/'.join(wmo_sn) + ('+' + '/'.join(local_sn) if local_sn else '')
+    try:
+        group = impl_group(wmo_sn, local_sn, root)
+    except Exception as e:
+        load_failure(ctx, label, wmo_sn, local_sn, e)
+        return
     if E_UNDEF in b or S_UNDEF in d:
         raise core.MachineryError('placeholder ids are defined in the tables')
-    label = '/'.join(wmo_sn) + ('+' + '/'.join(local_sn) if local_sn else '')
     rng = ctx.rng('lists:' + label)
     P = Pools(b, d, rng)
     cases = []
@@ -466,7 +491,10 @@ def check_lists(ctx, wmo_sn, local_sn, n_good, n_bad):
             if any(x // 1000 % 100 == 63 for x in ids if 100000 <= x < 200000):
                 ctx.count('lists_with_X63')
         omsg, cmsg = list_verdict(ids, impl, m, wf, d)
-        if omsg:
+        if omsg and (omsg, wf) in ctx.seen_list_failures:
+            ctx.count('lists_failing_again')
+        elif omsg:
+            ctx.seen_list_failures.add((omsg, wf))
             small = shrink_list(ctx, treq, group, ids, wf, d,
                                 lambda c, i, mo: (not wf or counted_ok(c)) and list_verdict(c, i, mo, wf, d)[0] == omsg)
             ctx.violation('id list %s (%s): %s' % (small[:40], label, omsg),
@@ -490,6 +518,89 @@ def nest_depth(ids):
                 i += 1
         return best
     return scope(0, len(ids))
+
+
+# ---------------------------------------------------------------------------------------------
+# stream 2b: synthetic table groups (WMO file + local file that adds, overrides and forward-references)
+UNITS = ['NUMERIC', 'CCITT IA5', 'CODE TABLE', 'FLAG TABLE', 'M', 'K']
+
+
+def synth_tables(rng):
+    """(wmo_b, wmo_d, loc_b, loc_d) as JSON-ready dicts.  Table D rows reference only rows of lower *rank*
+    (a random order unrelated to the numeric order, so forward references abound and there is no cycle);
+    the local file adds rows, overrides Table B entries and overrides Table D rows that no WMO row references
+    (a WMO row keeps the object it was linked to when the WMO file was loaded: outside the merged-table model)."""
+    def b_entry(i):
+        u = rng.choice(UNITS)
+        return ['N%06d' % i, u, rng.randint(-2, 3), rng.choice([0, 0, -1024, 5]), rng.choice([1, 7, 8, 12, 16, 24]), 'x', 0, 1]
+    b_ids = sorted(set([31001, 31002] + [rng.randrange(1000, 30000) for _ in range(14)]))
+    wmo_b = {'%06d' % i: b_entry(i) for i in b_ids}
+    loc_new_b = sorted(set(rng.randrange(48000, 49000) for _ in range(4)))
+    loc_b = {'%06d' % i: b_entry(i) for i in loc_new_b + rng.sample(b_ids, 3)}
+    wmo_ids = rng.sample(range(300001, 300060), 12)      # order of this list = rank
+    loc_ids = rng.sample(range(300100, 300140), 6)
+    elems = b_ids + loc_new_b + [E_UNDEF]
+
+    def row(lower):
+        def item(depth, last=False):
+            r = rng.random()
+            if depth < 3 and r < 0.25:
+                mem = []
+                for _ in range(rng.randint(0, 4)):
+                    mem += item(depth + 1)
+                x = len(mem)
+                if last and rng.random() < 0.3:
+                    x = min(63, x + rng.randint(1, 3))       # ill-counted row: the replication runs past the end
+                if rng.random() < 0.5:
+                    return [100000 + 1000 * x, rng.choice([31001, 31002, 31001, E_UNDEF])] + mem
+                return [100000 + 1000 * x + rng.randint(1, 9)] + mem
+            if r < 0.55 and lower:
+                return [rng.choice(lower)]
+            if r < 0.60:
+                return [rng.choice([S_UNDEF, 201130, 201000, 222000])]
+            return [rng.choice(elems)]
+        out = []
+        n = rng.randint(1, 5)
+        for j in range(n):
+            out += item(0, last=(j == n - 1))
+        return out
+    wmo_d, refd = {}, set()
+    for k, i in enumerate(wmo_ids):
+        r = row(wmo_ids[:k])
+        refd.update(x for x in r if x >= 300000)
+        wmo_d['%06d' % i] = ['S%06d' % i, ['%06d' % x for x in r]]
+    loc_d = {}
+    for k, i in enumerate(loc_ids):
+        loc_d['%06d' % i] = ['L%06d' % i, ['%06d' % x for x in row(wmo_ids + loc_ids[:k])]]
+    for i in [x for x in wmo_ids if x not in refd][:2]:
+        loc_d['%06d' % i] = ['O%06d' % i, ['%06d' % x for x in row(wmo_ids[:wmo_ids.index(i)])]]
+    return wmo_b, wmo_d, loc_b, loc_d
+
+
+def check_synthetic(ctx, n_groups, n_good, n_bad):
+    rng = ctx.rng('synthetic')
+    root = tempfile.mkdtemp(prefix='c14-synth-', dir='/tmp')
+    try:
+        for k in range(n_groups):
+            sub = os.path.join(root, 'g%d' % k)
+            wb, wd, lb, ld = synth_tables(rng)
+            for sn, bb, dd in ((('0', '0_0', '1'), wb, wd), (('0', '7_0', '2'), lb, ld)):
+                p = os.path.join(sub, *sn)
+                os.makedirs(p)
+                json.dump(bb, open(os.path.join(p, 'TableB.json'), 'w'))
+                json.dump(dd, open(os.path.join(p, 'TableD.json'), 'w'))
+            ctx.count('synthetic_groups')
+            ctx.count('synthetic_d_overrides', len(set(wd) & set(ld)))
+            ctx.count('synthetic_b_overrides', len(set(wb) & set(lb)))
+            before = ctx.violations
+            check_group(ctx, ('0', '0_0', '1'), ('0', '7_0', '2'), root=sub, tag='synthetic:')
+            check_group(ctx, ('0', '0_0', '1'), None, root=sub, tag='synthetic:')
+            check_lists(ctx, ('0', '0_0', '1'), ('0', '7_0', '2'), n_good, n_bad, root=sub, tag='synthetic:')
+            if ctx.violations > before:
+                # keep the tables with the replay: the scratch directory is removed
+                ctx.notes.append('synthetic group g%d: %s' % (k, json.dumps({'wmo_b': wb, 'wmo_d': wd, 'loc_b': lb, 'loc_d': ld})[:6000]))
+    finally:
+        shutil.rmtree(root, ignore_errors=True)
 
 
 # ---------------------------------------------------------------------------------------------
@@ -609,9 +720,13 @@ def check_normalize(ctx):
         model = ctx.driver.batch([{'op': 'normalize', 'masters': masters, 'dirs': dirs,
                                    'req': [r[0], r[1], r[2], r[3] or 33, r[4]]} for r in reqs])
         for req, m in zip(reqs, model):
-            g = TableGroupCacheManager.get_table_group(master_table_number=req[0], originating_centre=req[1],
-                                                       originating_subcentre=req[2], master_table_version=req[3],
-                                                       local_table_version=req[4])
+            try:
+                g = TableGroupCacheManager.get_table_group(master_table_number=req[0], originating_centre=req[1],
+                                                           originating_subcentre=req[2], master_table_version=req[3],
+                                                           local_table_version=req[4])
+            except Exception as e:
+                load_failure(ctx, 'get_table_group%r' % (tuple(req),), None, None, e)
+                continue
             impl = {'wmo': sn_tuple(g.key.wmo_tables_sn), 'local': sn_tuple(g.key.local_tables_sn)}
             ctx.case({'bundled': req}, nontrivial=True)
             ctx.traces += 1
@@ -727,9 +842,17 @@ def patch(data, k, new_id):
 
 
 def unknown_case(ctx, ids, vals, k, role, new_id):
-    data = encode_message(ids, vals)
-    if decode_tag(data) != 'ok':
-        raise core.MachineryError('unpatched message does not decode: %r' % ids)
+    try:
+        data = encode_message(ids, vals)
+        tag0 = decode_tag(data)
+    except Exception as e:
+        data, tag0 = None, 'encode:' + core.err_tag(e)
+    if tag0 != 'ok':
+        ctx.case({'unknown': ids, 'k': -1})
+        ctx.violation('a valid message over %s does not encode/decode (%s) before any descriptor is replaced' % (ids, tag0),
+                      {'unknown': True, 'ids': list(ids), 'vals': vals, 'k': k, 'role': role, 'new_id': new_id, 'observed': tag0},
+                      signature={'kind': 'unknown-baseline', 'observed': tag0})
+        return None, None, None
     tag = decode_tag(patch(data, k, new_id))
     pids = list(ids)
     pids[k] = new_id
@@ -747,6 +870,8 @@ def check_unknown(ctx):
         k, role = rng.choice(pos)
         new_id = E_UNDEF if role == 'factor' or rng.random() < 0.6 else S_UNDEF
         tag, pids, data = unknown_case(ctx, ids, vals, k, role, new_id)
+        if tag is None:
+            continue
         if tag != 'err:lib:unknown-descriptor':
             # shrink: the smallest message with the same role that still shows it
             small = {'top': ([1001, 1002], [None, None], 1),
@@ -775,6 +900,8 @@ def report_breaks(ctx):
 
 def run(ctx):
     ctx.corr_breaks = []
+    ctx.seen_list_failures = set()
+    ctx.seen_row_failures = set()
     ctx.rule = ('rows: every Table D row of each selected table group (non-trivial: the row contains a sequence, i.e. its '
                 'expansion is longer than the row); lists: random id lists over Table B/D ids, operators, undefined ids, '
                 'replication nested to depth 4, X up to 63, fixed/delayed (non-trivial: contains a replication or a sequence), '
@@ -788,6 +915,7 @@ def run(ctx):
     q = ctx.tier == 'quick'
     check_lists(ctx, ('0', '0_0', '33'), None, 700 if q else 20000, 350 if q else 8000)
     check_lists(ctx, ('0', '0_0', '33'), ('0', '98_0', '1'), 300 if q else 10000, 150 if q else 4000)
+    check_synthetic(ctx, 8 if q else 80, 40, 20)
     check_normalize(ctx)
     check_unknown(ctx)
     report_breaks(ctx)
@@ -800,8 +928,12 @@ def replay(ctx, path):
     body = json.load(open(path))
     r = body['replay']
     ctx.corr_breaks = []
+    ctx.seen_list_failures = set()
+    ctx.seen_row_failures = set()
     if r.get('unknown'):
         tag, pids, _ = unknown_case(ctx, r['ids'], r['vals'], r['k'], r['role'], r['new_id'])
+        if tag is None:
+            return
         print(json.dumps({'patched_ids': pids, 'observed': tag}))
         if tag != 'err:lib:unknown-descriptor':
             ctx.violation('decoding %s gives %s, not UnknownDescriptor' % (pids, tag), r,
